@@ -1832,7 +1832,13 @@ fn read_residuals<R: BitRead, I: SignedInteger>(
         let partition_order = reader.read::<4, u32>()?;
         let partition_count = 1 << partition_order;
 
-        let partitions = residuals.rchunks_mut(block_size / partition_count).rev();
+        // the block must divide evenly into (non-empty) partitions
+        let partition_len = block_size / partition_count;
+        if partition_len == 0 || !block_size.is_multiple_of(partition_count) {
+            return Err(Error::InvalidPartitionOrder);
+        }
+
+        let partitions = residuals.rchunks_mut(partition_len).rev();
 
         if partitions.len() != partition_count {
             return Err(Error::InvalidPartitionOrder);
